@@ -617,7 +617,8 @@ static bool mi_arena_try_purge(mi_arena_t* arena, mi_msecs_t now, bool force)
 
 static void mi_arenas_try_purge( bool force, bool visit_all ) 
 {
-  if (_mi_preloading() || mi_arena_purge_delay() <= 0) return;  // nothing will be scheduled
+  if (_mi_preloading() || mi_arena_purge_delay() < 0) return;  // purging is not allowed (note: with a delay of 0 nothing new is scheduled but purges
+                                                                // that were scheduled before the delay was set to 0 at run time still have to be done)
 
   // check if any arena needs purging?
   const mi_msecs_t now = _mi_clock_now();
@@ -653,7 +654,18 @@ static void mi_arenas_try_purge( bool force, bool visit_all )
     }
     if (all_visited && !any_pending) {
       // all arena's were visited and purged: reset global expire
-      mi_atomic_storei64_release(&mi_arenas_purge_expire, 0);
+      mi_msecs_t expected = now + mi_arena_purge_delay();
+      mi_atomic_casi64_strong_acq_rel(&mi_arenas_purge_expire, &expected, (mi_msecs_t)0);
+      // another thread may have scheduled a purge in an arena after we visited it; it could not set the global expire
+      // as that was still set, so check again (after the reset) and re-arm the global expire if needed.
+      for (size_t i = 0; i < max_arena; i++) {
+        mi_arena_t* arena = mi_atomic_load_ptr_acquire(mi_arena_t, &mi_arenas[i]);
+        if (arena != NULL && mi_atomic_loadi64_acquire(&arena->purge_expire) != 0) {
+          expected = 0;
+          mi_atomic_casi64_strong_acq_rel(&mi_arenas_purge_expire, &expected, _mi_clock_now() + mi_arena_purge_delay());
+          break;
+        }
+      }
     }
   }
 }
